@@ -63,14 +63,18 @@ def crop_event(n1, n2, batch):
     return ev
 
 
-def interp_event(n1, n2, kind, double, rng):
-    """n2 >= n1 per axis: x -> up (n2) -> down (n1)"""
+def interp_event(n1, n2, kind, double, rng, data_double=None):
+    """n2 >= n1 per axis: x -> up (n2) -> down (n1).  double: the configured precision; data_double: the precision of the array handed
+    in (by default the configured one); the result is held to the lower of the two"""
     import abtem
     from abtem.core.fft import fft_interpolate
+    cfg_double = double
+    data_double = cfg_double if data_double is None else data_double
+    double = cfg_double and data_double
     ev = {"k": "interp", "n1": list(n1), "n2": list(n2), "dtype": kind, "double": double, "raised": False, "roundtrip_ppb": 0,
-          "mean_ppb": 0, "intensity_ppb": 0}
+          "mean_ppb": 0, "intensity_ppb": 0, "config_double": cfg_double, "data_double": data_double}
     try:
-        with abtem.config.set({"precision": "float64" if double else "float32"}):
+        with abtem.config.set({"precision": "float64" if cfg_double else "float32"}):
             g = np.random.default_rng(rng.randrange(1 << 30))
             shape = ((2,) if kind.endswith("batch") else ()) + tuple(n1)
             x = g.normal(size=shape)
@@ -84,7 +88,7 @@ def interp_event(n1, n2, kind, double, rng):
                         idx[ax] = n // 2
                         X[tuple(idx)] = 0
                 x = np.fft.ifft2(X).real
-            x = x.astype((np.complex128 if double else np.complex64) if kind.startswith("complex") else (np.float64 if double else np.float32))
+            x = x.astype((np.complex128 if data_double else np.complex64) if kind.startswith("complex") else (np.float64 if data_double else np.float32))
             up = fft_interpolate(x, tuple(n2), normalization="values")
             back = fft_interpolate(up, tuple(n1), normalization="values")
             ev["roundtrip_ppb"] = ppb(relmax(back, x))
@@ -215,8 +219,10 @@ def run(ctx: Ctx):
     ups = [(a, b) for a, b in pairs if a[1] >= a[0] and b[1] >= b[0] and a[0] >= 2 and b[0] >= 2]
     kinds = ["complex", "complex_batch", "real_bandlimited", "real_nyquist"]
     for j, (a, b) in enumerate(ups[: (240 if quick else 6000)]):
-        evs.append(interp_event((a[0], b[0]), (a[1], b[1]), kinds[j % 4], double=(j % 5 == 0), rng=rng))
-        ctx.case(("interp", a, b, kinds[j % 4], j % 5 == 0), nontrivial=a[0] != a[1] or b[0] != b[1])
+        # the data's precision need not be the configured one (every 7th case: double data under float32, single data under float64)
+        dd = None if j % 7 else (j % 5 != 0)
+        evs.append(interp_event((a[0], b[0]), (a[1], b[1]), kinds[j % 4], double=(j % 5 == 0), rng=rng, data_double=dd))
+        ctx.case(("interp", a, b, kinds[j % 4], j % 5 == 0, dd), nontrivial=a[0] != a[1] or b[0] != b[1])
     rng.shuffle(shifts)
     for j, (n, p, q) in enumerate(shifts[: (300 if quick else 5000)]):
         m = [3, 4, 5, 6, 8][j % 5]
@@ -240,7 +246,7 @@ def replay(ctx: Ctx, case):
     if e["k"] == "crop":
         ev = crop_event(e["n1"], e["n2"], e["batch"])
     elif e["k"] == "interp":
-        ev = interp_event(e["n1"], e["n2"], e["dtype"], e["double"], rng)
+        ev = interp_event(e["n1"], e["n2"], e["dtype"], e.get("config_double", e["double"]), rng, data_double=e.get("data_double"))
     elif e["k"] == "shift":
         ev = shift_event(e["n"][0], e["n"][1], e["p"], e["q"], e["double"], rng)
     else:
